@@ -41,6 +41,21 @@ def make_cases(ctx):
     n = ctx.pick(4000, 60000)
     for i in range(n):
         yield "p%d" % i, {"i": i}
+    # full product of the features that a resumed connection has to carry
+    # over: two connections each, the second offering the first's session
+    for ver in pair.VERSIONS[:4]:
+        for mech in ("id", "ticket"):
+            for cauth in (False, True):
+                for ems in (True, False):
+                    for etm in (True, False):
+                        for cipher in ("aes128", "aes128gcm"):
+                            if cipher == "aes128gcm" and ver < (3, 3):
+                                continue
+                            if ver == (3, 0) and ems:
+                                continue
+                            yield "dres-%d-%s-%d%d%d-%s" % (
+                                ver[1], mech, cauth, ems, etm, cipher), {
+                                "dres": [ver, mech, cauth, ems, etm, cipher]}
 
 
 def chain_bytes(chain):
@@ -62,11 +77,59 @@ def peer_key_info(chain):
     return ("eddsa", 0, alg)
 
 
+def run_dres(ctx, cid, P):
+    from tlslite.sessioncache import SessionCache
+    from vt.flavours import TK
+    from vt.pair import ver_settings
+    ver, mech, cauth, ems, etm, cipher = P["dres"]
+    ver = tuple(ver)
+    kw = dict(useExtendedMasterSecret=ems, useEncryptThenMAC=etm,
+              cipherNames=[cipher])
+    cs = ver_settings(ver, **kw)
+    skw = dict(kw)
+    cache = None
+    if mech == "ticket":
+        skw["ticketKeys"] = TK
+    else:
+        cache = SessionCache()
+    ss = ver_settings(ver, **skw)
+    sni = "example.com" if ctx.rng.random() < 0.5 else None
+    fl = Flavor("cert", skey="rsa", ckey="rsa" if cauth else None,
+                req_cert=cauth, cset=cs, sset=ss, session_cache=cache,
+                sni=sni)
+    p = Pair()
+    tc, ts = p.handshake(fl)
+    ctx.ev()
+    fkey = {"flavour": "cert", "skeytype": "rsa", "directed": True}
+    desc = {"case": cid, "features": P["dres"], "sni": sni,
+            "outcome": [outcome(tc), outcome(ts)]}
+    if tc.status != "done" or ts.status != "done":
+        ctx.violation(dict(fkey, clause="honest_handshake_failed",
+                           ver=pair.VNAME[ver]), desc,
+                      "%r / %r" % (tc.exc, ts.exc))
+        return
+    first = {"etm": bool(p.s.encryptThenMAC), "ems": bool(
+        p.s.extendedMasterSecret), "suite": p.s.session.cipherSuite}
+    ctx.count("directed_resumption_sources")
+    resumed_agreement(ctx, p, fl, fkey, desc, want=first, cauth=cauth)
+
+
 def run_case(ctx, cid, P):
+    if "dres" in P:
+        return run_dres(ctx, cid, P)
     rng = ctx.rng
     p_keep = rng.choice([0.3, 0.5, 0.7, 0.85])
     cd, cs = policy.gen_valid(rng, p_keep=p_keep)
     sd, ss = policy.gen_valid(rng, p_keep=p_keep)
+    # EMS / EtM switches (each side on its own)
+    for hs_, dd in ((cs, cd), (ss, sd)):
+        if rng.random() < 0.25:
+            hs_.useExtendedMasterSecret = False
+            hs_.requireExtendedMasterSecret = False
+            dd["useExtendedMasterSecret"] = False
+        if rng.random() < 0.2:
+            hs_.useEncryptThenMAC = False
+            dd["useEncryptThenMAC"] = False
     kind = rng.choice(["cert"] * 6 + ["srp", "srp_cert", "anon", "psk"])
     skey = rng.choice(SKEYS)
     if kind == "srp_cert" and rng.random() < 0.8:
@@ -326,7 +389,7 @@ def run_case(ctx, cid, P):
         resumed_agreement(ctx, p, fl, fkey, desc)
 
 
-def resumed_agreement(ctx, p, fl, fkey, desc):
+def resumed_agreement(ctx, p, fl, fkey, desc, want=None, cauth=False):
     """the same two parties connect again offering the session: both ends of
     the second connection must agree as well (whether or not it resumed)"""
     from vt.flavours import pump
@@ -347,7 +410,8 @@ def resumed_agreement(ctx, p, fl, fkey, desc):
     # must lie inside the settings in force *now*
     rng = ctx.rng
     changed = None
-    if rng.random() < 0.5 and sess.cipherSuite in suites.TABLE:
+    if want is None and rng.random() < 0.5 and \
+            sess.cipherSuite in suites.TABLE:
         su0 = suites.TABLE[sess.cipherSuite]
         import copy as _copy
         ss2 = _copy.copy(fl.sset)
@@ -429,6 +493,25 @@ def resumed_agreement(ctx, p, fl, fkey, desc):
         if a != b:
             ctx.violation(dict(fk, clause="view_mismatch", field=name), desc,
                           "%s differs: %r vs %r" % (name, a, b))
+    if want is not None:
+        # unchanged offer to the unchanged server: the second connection has
+        # the first one's protection whether or not it resumed
+        have = {"etm": bool(s.encryptThenMAC), "ems": bool(
+            s.extendedMasterSecret), "suite": s.session.cipherSuite}
+        for k in want:
+            if want[k] != have[k]:
+                ctx.violation(dict(fk, clause="second_connection_weaker",
+                                   field=k), desc,
+                              "%s was %r on the first connection and is %r "
+                              "on the second (resumed=%s)" % (
+                                  k, want[k], have[k], bool(s.resumed)))
+        if cauth and s.resumed and (s.session.clientCertChain is None or
+                                    not s.session.clientCertChain.getNumCerts()):
+            ctx.violation(dict(fk, clause="view_mismatch",
+                               field="clientCertChain"), desc,
+                          "client identity lost on the resumed connection")
+        if not c.resumed:
+            ctx.count("directed_not_resumed")
     ctx.cell("outcome", "second|%s|%s" % (pair.VNAME[tuple(c.version)],
                                          "resumed" if c.resumed else "full"))
 
